@@ -276,6 +276,7 @@ def lattice_axioms():
 
 
 split_len = z3.Function("split_len", Val, Val, Val, I)
+str_replace = z3.Function("str_replace", Val, Val, Val, Val)
 split_item = z3.Function("split_item", Val, Val, Val, I, Val)
 
 
@@ -295,6 +296,8 @@ def builtin_axioms():
         z3.ForAll([v], z3.Not(Val.is_ref(type_of(v))), patterns=[type_of(v)]),        # classes are constants, not heap objects
         z3.ForAll([v, _v2, _v3, _i1], z3.And(Val.is_str(split_item(v, _v2, _v3, _i1)), is_str_u(split_item(v, _v2, _v3, _i1))),
                   patterns=[split_item(v, _v2, _v3, _i1)]),
+        z3.ForAll([v, _v2, _v3], z3.And(Val.is_str(str_replace(v, _v2, _v3)), is_str_u(str_replace(v, _v2, _v3))),
+                  patterns=[str_replace(v, _v2, _v3)]),
     ]
     return ax
 
